@@ -897,13 +897,13 @@ MULTI_TILE = ["steel-chest", "small-lamp", "inserter", "pump", "storage-tank", "
               "transport-belt", "power-switch", "iron-chest", "medium-electric-pole"]
 
 
-def gen_layout(seed: int) -> str:
+def gen_layout(seed: int, profile: int | None = None) -> str:
     """user-placed entities (far apart, negative coordinates, multi-tile prototypes, loops, functions),
     fan-out, memories and latches: what stresses placement, relays and poles"""
     rng = random.Random(seed)
     lines, names = _inputs(rng, rng.randint(1, 3))
     x = names[0][0]
-    prof = rng.random()
+    prof = rng.random() if profile is None else [0.1, 0.4, 0.5, 0.65, 0.9][profile % 5]
     used = set()
 
     def spot(far=False):
